@@ -42,8 +42,9 @@ def main():
     args = sys.argv[1:]
     n = int(args[0]) if args and args[0].isdigit() else 2000
     props = [a for a in args if not a.isdigit()] or ["C04", "C05", "C16"]
-    ok = True
+    all_ok = True
     for prop in props:
+        ok = True
         if not os.path.exists(os.path.join(HERE, "simkit", "profiles", prop.lower() + ".py")):
             continue
         a = run(prop, n, 16, 0)
@@ -58,7 +59,8 @@ def main():
         keep = [k for k in a if a[k].split(" ")[-1] in plain]
         ok &= diff({k: a[k] for k in keep}, {k: d[k] for k in keep}, "%s: seams installed vs not installed (fault-free runs)" % prop)
         print("determinism %s: %d seeds x {hashseed, worker count, seams on/off}: %s" % (prop, n, "identical" if ok else "DIFFERENT"))
-    return 0 if ok else 1
+        all_ok &= ok
+    return 0 if all_ok else 1
 
 
 if __name__ == "__main__":
